@@ -95,6 +95,13 @@ class Run:
 
     def finish(self, level, coverage, assumptions, extra=None):
         wall = round(time.time() - self.t0, 2)
+        tot = getattr(self, "_ded_totals", None)
+        if tot and isinstance(coverage, dict):
+            # every evidence file names the back ends that discharged its deductive obligations, the solver time and the per-obligation budget
+            coverage.setdefault("by_backend", dict(tot["by_backend"]))
+            coverage.setdefault("solver_ms_total", tot["solver_ms_total"])
+            coverage.setdefault("n_undecided", tot["n_undecided"])
+            coverage.setdefault("solver_budget_s_per_obligation", tot["budget_s"])
         os.makedirs(os.path.join(OUT, "evidence"), exist_ok=True)
         # group violations by obligation: one VIOLATION line per obligation (first example), all stored
         lines = []
